@@ -194,8 +194,8 @@ func main() {
 		}
 	}
 
-	// ---- processResponses: order of the peer filter and the response hooks
-	var hooksAfterPeerFilter bool
+	// ---- processResponses: which responses reach the response hooks
+	var hookScope string
 	{
 		fd := findMethod(f, "processResponses")
 		var calls []string
@@ -203,7 +203,7 @@ func main() {
 			if c, ok := n.(*ast.CallExpr); ok {
 				if sel, ok := c.Fun.(*ast.SelectorExpr); ok {
 					switch sel.Sel.Name {
-					case "filterResponsesForPeer", "processExtensions", "updateLastResponses", "IngestResponse", "processTerminations":
+					case "dropResponsesForOtherPeers", "filterResponsesForPeer", "processExtensions", "updateLastResponses", "IngestResponse", "processTerminations":
 						calls = append(calls, sel.Sel.Name)
 					}
 				}
@@ -212,11 +212,23 @@ func main() {
 		})
 		switch strings.Join(calls, ",") {
 		case "processExtensions,filterResponsesForPeer,updateLastResponses,IngestResponse,processTerminations":
-			hooksAfterPeerFilter = false
+			hookScope = "all"
 		case "filterResponsesForPeer,processExtensions,updateLastResponses,IngestResponse,processTerminations":
-			hooksAfterPeerFilter = true
+			hookScope = "tracked"
+		case "dropResponsesForOtherPeers,processExtensions,filterResponsesForPeer,updateLastResponses,IngestResponse,processTerminations":
+			hookScope = "notForeign"
+			dd := findMethod(f, "dropResponsesForOtherPeers")
+			want := "{ § := make([]gsmsg.GraphSyncResponse, 0, len(§)) for _, § := range § { §, § := §.inProgressRequestStatuses[§.RequestID()] if § && §.p != § { continue } § = append(§, §) } return § }"
+			if !like(want, src(dd.Body)) {
+				die(dd.Pos(), "dropResponsesForOtherPeers: body not understood: %s", src(dd.Body))
+			}
 		default:
 			die(fd.Pos(), "processResponses: stage order not understood: %s", strings.Join(calls, ","))
+		}
+		// the full filter: unknown request or other peer dropped
+		ff := findMethod(f, "filterResponsesForPeer")
+		if !likeAnywhere("if !§ || §.p != § { continue }", src(ff.Body)) {
+			die(ff.Pos(), "filterResponsesForPeer: filter condition not understood")
 		}
 	}
 
@@ -285,8 +297,9 @@ func main() {
 	fmt.Fprintf(&b, "def releasePauseGuardChecksCtx : Bool := %v\n\n", pauseGuardChecksCtx)
 	b.WriteString("/-- executor.traverse re-checks the request context after SetRemoteOnline(true) and before\n    contacting the remote (`select { case <-rt.Ctx.Done(): SetRemoteOnline(false); return ContextCancelError{} default: }`) -/\n")
 	fmt.Fprintf(&b, "def goOnlineChecksCtx : Bool := %v\n\n", goOnlineChecksCtx)
-	b.WriteString("/-- processResponses runs the response hooks (processExtensions) only on the responses that passed\n    filterResponsesForPeer (request still tracked and sent to the sending peer); `false` = hooks first -/\n")
-	fmt.Fprintf(&b, "def hooksAfterPeerFilter : Bool := %v\n\n", hooksAfterPeerFilter)
+	b.WriteString("/-- which responses of a message reach the response hooks (processExtensions) in processResponses:\n    `all` = hooks run first on everything; `notForeign` = after dropResponsesForOtherPeers (dropped: the request\n    is in progress with a DIFFERENT peer); `tracked` = after filterResponsesForPeer (request tracked, same peer).\n    In every variant filterResponsesForPeer runs before the responses are ingested. -/\n")
+	b.WriteString("inductive HookScope where | all | notForeign | tracked\nderiving DecidableEq, Repr\n\n")
+	fmt.Fprintf(&b, "def hookScope : HookScope := HookScope.%s\n\n", hookScope)
 	b.WriteString("/-- the stages of terminateRequest in source order -/\n")
 	b.WriteString("def terminateStages : List String :=\n  [")
 	for i, s := range stages {
